@@ -128,3 +128,31 @@ Fixpoint parse_docs (fuel : nat) (ts : list token) : option (list value) :=
                   | None => None end
            end
   end.
+
+(* transport value -> document (objects keep the order given) *)
+Fixpoint dec_value (e : sexp) : option value :=
+  match e with
+  | SList (t :: l) =>
+      if atom_is "a" t then
+        option_map VArr
+          ((fix go (l : list sexp) : option vlist :=
+              match l with
+              | [] => Some VNil
+              | x :: r => match dec_value x, go r with
+                          | Some v, Some vs => Some (VCons v vs)
+                          | _, _ => None end
+              end) l)
+      else if atom_is "o" t then
+        option_map VObj
+          ((fix go (l : list sexp) : option mlist :=
+              match l with
+              | [] => Some MNil
+              | SList [Atom k; x] :: r =>
+                  match parse_hexs k, dec_value x, go r with
+                  | Some k, Some v, Some m => Some (MCons k v m)
+                  | _, _, _ => None end
+              | _ => None
+              end) l)
+      else option_map VS (dec_scalar e)
+  | _ => option_map VS (dec_scalar e)
+  end.
